@@ -8,12 +8,16 @@ export GOFLAGS=-mod=mod GOPROXY=off GOSUMDB=off GOTOOLCHAIN=local CGO_ENABLED=${
 REPO_SRC="${VERIF_REPO:-/repo}"
 VERIF_DIR="$(cd "$(dirname "$0")" && pwd)"
 mkdir -p "$SCR" || exit 2
-if [ ! -x "$VERIF_DIR/bin/inst" ]; then ( mkdir -p "$VERIF_DIR/bin" && cd "$VERIF_DIR/inst" && go build -trimpath -o "$VERIF_DIR/bin/inst" . ) || { echo "INFRA: cannot build instrumenter" >&2; exit 2; }; fi
+if [ ! -x "$VERIF_DIR/bin/inst" ] || [ -n "$(find "$VERIF_DIR/inst" -name '*.go' -newer "$VERIF_DIR/bin/inst" 2>/dev/null)" ]; then ( mkdir -p "$VERIF_DIR/bin" && cd "$VERIF_DIR/inst" && go build -trimpath -o "$VERIF_DIR/bin/inst" . ) || { echo "INFRA: cannot build instrumenter" >&2; exit 2; }; fi
 rsync -a --delete --exclude .git --exclude web "$REPO_SRC"/ "$SCR/repo/" || exit 2
 # the playground's execute path, extracted into a compilable package (before instrumentation, so it is instrumented too)
 "$VERIF_DIR/bin/inst" -dir "$SCR/repo" -extract "$REPO_SRC/web/wasm/executor.go" >"$SCR/extract.log" 2>&1 || { cat "$SCR/extract.log" >&2; echo "INFRA: playground extraction failed" >&2; exit 2; }
 if [ "$FLAVOUR" = seam ]; then
   "$VERIF_DIR/bin/inst" -dir "$SCR/repo" -seam "$VERIF_DIR/sim/seam" >"$SCR/inst.log" 2>&1 || { cat "$SCR/inst.log" >&2; echo "INFRA: instrumentation failed" >&2; exit 2; }
+else
+  # plain flavour: the only inserted line is the step counter at the entry of evaluator.Eval
+  # (a program that no longer terminates is then a reproducible outcome, not a hung check)
+  "$VERIF_DIR/bin/inst" -dir "$SCR/repo" -seam "$VERIF_DIR/sim/seam" -fuelonly >"$SCR/inst.log" 2>&1 || { cat "$SCR/inst.log" >&2; echo "INFRA: instrumentation failed" >&2; exit 2; }
 fi
 rsync -a --delete --exclude seam "$VERIF_DIR/sim/" "$SCR/sim/" || exit 2
 sed "s#@REPO@#$SCR/repo#g" "$VERIF_DIR/sim/go.mod.tmpl" > "$SCR/sim/go.mod"
